@@ -7,8 +7,15 @@ package main
 // document, an error document with 2xx or invalid JSON where JSON is declared is an oracle line (the Search).
 
 import (
+	"encoding/json"
 	"fmt"
+	"net/http/httptest"
 	"strings"
+	"time"
+
+	"github.com/LindsayBradford/crem/internal/pkg/server"
+	"github.com/LindsayBradford/crem/internal/pkg/server/admin"
+	"github.com/LindsayBradford/crem/pkg/logging/loggers"
 )
 
 func init() { register("C15", runC15) }
@@ -61,6 +68,172 @@ func c15Shapes(g *c14Gen) []c14Req {
 		{"POST", c14Api + "/solutions", c14Csv, sum},
 		{"GET", c14Api + "/model", "", ""},
 	}
+}
+
+// ---------------------------------------------------------------------------------------------------
+// the whole server: the engine's API multiplexer wired by server.RestServer.WithApiMux (status handler under "^/$") and
+// the admin multiplexer (GET /status, POST /shutdown).  Nothing listens on a port; requests go through ServeHTTP.
+
+type c15Server struct {
+	w     *c14World
+	eng   *c14Engine
+	admin   *admin.Mux
+	signals chan bool // one value per value received from the admin multiplexer's done channel
+	steps   []J
+	name    string
+}
+
+const (
+	c15SvcName    = "verif engine"
+	c15SvcVersion = "0.0-verif"
+	c15SvcStatus  = "RUNNING"
+)
+
+func (w *c14World) newServer(name string) *c15Server {
+	e := w.newEngine(name)
+	srv := new(server.RestServer).Initialise().WithApiMux(e.mux).WithLogger(loggers.NewNullLogger()).
+		WithStatus(admin.ServiceStatus{ServiceName: c15SvcName, Version: c15SvcVersion, Status: c15SvcStatus})
+	s := &c15Server{w: w, eng: e, admin: srv.VerifC16AdminMux(), name: name, signals: make(chan bool, 64)}
+	// what RestServer.Start does on the main goroutine: wait on the done channel (here: again and again)
+	go func() {
+		for {
+			s.admin.WaitForShutdownSignal()
+			s.signals <- true
+		}
+	}()
+	time.Sleep(2 * time.Millisecond)
+	return s
+}
+
+func c15AdminRoute(path string) string {
+	switch c14DecodedPath(path) {
+	case "/status":
+		return "status"
+	case "/shutdown":
+		return "shutdown"
+	}
+	return "none"
+}
+
+// send: target "api" (the engine multiplexer) or "admin".  A POST /shutdown is given a waiter on the done channel, as
+// RestServer.Start provides one; whether the channel received a value is the observable of the shutdown request.
+func (s *c15Server) send(target string, q c14Req) {
+	w := s.w
+	var abs J
+	var r c15Resp
+	signalled := false
+	if target == "api" && c14DecodedPath(q.Path) != "/" {
+		before := len(s.eng.steps)
+		s.eng.send(q)
+		if len(s.eng.steps) > before {
+			st := s.eng.steps[len(s.eng.steps)-1]
+			s.steps = append(s.steps, J{"t": "api", "req": st["req"], "go": st["go"], "resp": st["resp"], "signalled": false})
+		}
+		return
+	}
+	do := func() {
+		defer func() {
+			if p := recover(); p != nil {
+				r = c15Resp{Panicked: true, Panic: fmt.Sprint(p)}
+			}
+		}()
+		rec := httptest.NewRecorder()
+		req := httptest.NewRequest(q.Method, "http://dummyUrl"+q.Path, strings.NewReader(q.Body))
+		if q.Ctype != "" {
+			req.Header.Add("Content-Type", q.Ctype)
+		}
+		if target == "api" {
+			s.eng.mux.ServeHTTP(rec, req)
+		} else {
+			s.admin.ServeHTTP(rec, req)
+		}
+		res := rec.Result()
+		b := new(strings.Builder)
+		buf := make([]byte, 4096)
+		for {
+			n, err := res.Body.Read(buf)
+			b.Write(buf[:n])
+			if err != nil {
+				break
+			}
+		}
+		r = c15Resp{Status: res.StatusCode, Ctype: res.Header.Get("Content-Type"), Body: b.String()}
+	}
+	if target == "admin" {
+		finished := make(chan bool, 1)
+		go func() { do(); finished <- true }()
+		select {
+		case <-finished:
+		case <-time.After(3 * time.Second):
+			r = c15Resp{Panicked: true, Panic: "the admin handler did not return within 3 s"}
+		}
+		select {
+		case <-s.signals:
+			signalled = true
+			time.Sleep(2 * time.Millisecond) // let the waiter get back to the channel receive
+		case <-time.After(15 * time.Millisecond):
+		}
+		abs = J{"t": "admin", "m": c14Meth(q.Method), "route": c15AdminRoute(q.Path)}
+	} else {
+		do()
+		abs = J{"t": "root", "m": c14Meth(q.Method)}
+	}
+	w.stats["requests"]++
+	w.stats["server:"+abs["t"].(string)+":"+c14Meth(q.Method)]++
+	var resp J
+	if r.Panicked {
+		resp = J{"k": "panic", "what": r.Panic}
+		w.oracleLine("panic", q, r, J{"route": J{"k": target}}, "the "+target+" handler panicked: "+r.Panic)
+	} else {
+		resp = w.project("status", r, nil)
+		w.stats["status:"+fmt.Sprint(r.Status)]++
+		switch r.Status {
+		case 200, 400, 404, 405, 415, 500, 503:
+		default:
+			w.oracleLine("undocumented-status", q, r, J{"route": J{"k": target}}, fmt.Sprintf("status %d is not in the documented set", r.Status))
+		}
+		pb, _ := resp["b"].(J)
+		if r.Status/100 != 2 && (r.Ctype != c14Json || pb["k"] != "err") {
+			w.oracleLine("error-body-not-json-error-document", q, r, J{"route": J{"k": target}}, "non-2xx answer whose body is not the JSON error document")
+		}
+		if r.Ctype == c14Json && !json.Valid([]byte(r.Body)) {
+			w.oracleLine("invalid-json", q, r, J{"route": J{"k": target}}, "JSON declared but the body is not valid JSON")
+		}
+	}
+	abs["go"] = J{"target": target, "method": q.Method, "path": q.Path}
+	abs["resp"] = resp
+	abs["signalled"] = signalled
+	s.steps = append(s.steps, abs)
+}
+
+func (s *c15Server) finish() {
+	emit(J{"kind": "scase", "name": s.name, "svc": []string{c15SvcName, c15SvcVersion, c15SvcStatus}, "steps": s.steps})
+	s.w.stats["server_sequences"]++
+}
+
+func (g *c14Gen) serverWalk(i int, n int) {
+	p := g.p
+	s := g.w.newServer(fmt.Sprintf("server-%d", i))
+	adminPaths := []string{"/status", "/status", "/shutdown", "/", "/statusx", "/status/", "/Status", "/shutdown/now", c14Api + "/model", "/status%2F"}
+	methods := []string{"GET", "GET", "POST", "POST", "PUT", "PATCH", "DELETE", "HEAD", "OPTIONS", "FOO"}
+	for k := 0; k < n; k++ {
+		switch x := p.intn(10); {
+		case x < 5:
+			s.send("admin", c14Req{g.pick(methods), g.pick(adminPaths), g.pick([]string{"", c14Json, "text/plain"}), g.pick([]string{"", "x", "{}"})})
+		case x < 7:
+			s.send("api", c14Req{g.pick(methods), "/", "", ""})
+		case x == 7:
+			s.send("api", c14Req{"POST", c14Api + "/scenario", c14Toml, g.pick(g.scen)})
+		default:
+			s.send("api", g.step(s.eng, 0.3))
+		}
+	}
+	// the canonical ending: status, shutdown, status
+	s.send("admin", c14Req{"GET", "/status", "", ""})
+	s.send("admin", c14Req{"POST", "/shutdown", "", ""})
+	s.send("admin", c14Req{"GET", "/status", "", ""})
+	s.send("api", c14Req{"GET", "/", "", ""})
+	s.finish()
 }
 
 func runC15(args []string) {
@@ -123,6 +296,14 @@ func runC15(args []string) {
 			e.send(g.step(e, 0.65))
 		}
 		e.finish("malformed-walk")
+	}
+	// 4. the whole server: admin multiplexer and the status handler on the API's "/"
+	nsrv := 12
+	if tier == "thorough" {
+		nsrv = 80
+	}
+	for i := 0; i < nsrv; i++ {
+		g.serverWalk(i, 6+g.p.intn(10))
 	}
 	w.finish()
 }
